@@ -68,10 +68,6 @@ func builtinFunctionApply(call FunctionCall) Value {
 		panic(call.runtime.panicTypeError("Function.apply %q is not callable", call.This))
 	}
 	this := call.Argument(0)
-	if this.IsUndefined() {
-		// FIXME Not ECMA5
-		this = objectValue(call.runtime.globalObject)
-	}
 	argumentList := call.Argument(1)
 	switch argumentList.kind {
 	case valueUndefined, valueNull:
@@ -116,10 +112,5 @@ func builtinFunctionBind(call FunctionCall) Value {
 
 	this := call.Argument(0)
 	argumentList := call.slice(1)
-	if this.IsUndefined() {
-		// FIXME Do this elsewhere?
-		this = objectValue(call.runtime.globalObject)
-	}
-
 	return objectValue(call.runtime.newBoundFunction(targetObject, this, argumentList))
 }
